@@ -17,7 +17,7 @@ POSITIONS = ["first", "second", "middle", "penult", "last"]
 STAGES = ["sigtimes", "snapshots", "sequence", "srt", "srt_plain", "vtt", "vtt_cfg", "imsc", "imsc_clock", "imsc_frames",
           "imsc_clockframes", "lcd", "lcd_snapshots", "lcd_srt", "lcd_vtt", "lcd_imsc"]
 
-BOUNDARY = [b"0", b"-1", b"99999999999999999999", b"1e999", b"00", b"255", b"", b"60", b"59.9999"]
+BOUNDARY = [b"0", b"-1", b"99999999999999999999", b"1e999", b"00", b"255", b"", b"60", b"59.9999", b"9" * 400, b"0." + b"0" * 400 + b"1"]
 JUNK = [b"\x00", b"\xff\xfe", b"<", b">", b"&", b"-->", b"{\\an8}", b"</b>", b"<i>", b"\t", b"%", b"\xe2\x80\xa8", b"[", b"\"", b"'"]
 
 
@@ -31,6 +31,7 @@ JUNK_BY_FMT = {
           b"00:00:00:00\t", b"99:99:99;99\t9420", b"1c20 1c20", b"91b0"],
   "ttml": [b"tts:color=\"\"", b"begin=\"\"", b"style=\"s1 s1 sX\"", b"region=\"nope\"", b"tts:fontSize=\"1em 2em 3em\"", b"xml:space=\"x\"",
            b"timeContainer=\"x\"", b"tts:textShadow=\"1px\"", b"tts:extent=\"auto\"", b"ttp:frameRate=\"0\"", b"ttp:cellResolution=\"0 0\"",
+           b"tts:extent=\"" + b"9" * 400 + b"px 480px\"", b"tts:fontSize=\"" + b"9" * 400 + b"px\"", b"begin=\"" + b"9" * 400 + b"s\"",
            b"<set/>", b"<span/>", b"<br>x</br>", b"<p><p/></p>", b"tts:ruby=\"text\"", b"tts:position=\"left\"", b"end=\"-1s\"", b"dur=\"1e3s\""],
   "stl": [b"\x8f" * 16, b"\x8a" * 16, b"\xff" * 16, b"\x00" * 16, b"STL99.01" + b" " * 8, b"\xc1" * 16, b"\x0b\x0b\x0a\x0a" * 4],
 }
